@@ -310,3 +310,8 @@ Theorem C06_set_index_below_refuted : exists divs rows, Divisions.sortedZ divs /
   ~ Divisions.truthful divs (sp_parts divs rows).
 Proof. exact set_index_below_refuted. Qed.
 Print Assumptions C06_set_index_below_refuted.
+
+Theorem C06_set_index_row_count : forall divs rows, (2 <= length divs)%nat ->
+  length (concat (sp_parts divs rows)) = length rows.
+Proof. exact set_index_row_count. Qed.
+Print Assumptions C06_set_index_row_count.
